@@ -304,6 +304,37 @@ class SStr(ModelValue):
             return self
         raise OutsideSubset("rstrip(%r) of %r is not determined" % (chars, self))
 
+    def m_lstrip(self, it, chars=None):
+        # mirror image of rstrip: decided when the string starts with an atom / numeral that cannot hold any of the
+        # characters, or with a literal that does not start with one of them
+        if chars is None:
+            chars = ' \t\n\r\x0b\x0c'
+        if not isinstance(chars, str):
+            raise OutsideSubset("lstrip with structured characters")
+        segs = self.segs
+        if not segs:
+            return self
+        first = segs[0]
+        if isinstance(first, Lit):
+            if first.text[0] not in chars:
+                return self
+            stripped = first.text.lstrip(chars)
+            if stripped:
+                return simplify(SStr([Lit(stripped)] + segs[1:]))
+            return simplify(SStr(segs[1:])).m_lstrip(it, chars) if len(segs) > 1 else ''
+        if isinstance(first, Num):
+            if not (set(chars) & set(DIGITS)):
+                return self
+        elif not any(self.may_contain(ch, first) for ch in chars):
+            return self
+        raise OutsideSubset("lstrip(%r) of %r is not determined" % (chars, self))
+
+    def m_strip(self, it, chars=None):
+        r = self.m_rstrip(it, chars)
+        if isinstance(r, str):
+            return r.lstrip(chars)
+        return r.m_lstrip(it, chars)
+
     def m_replace(self, it, old, new, *count):
         from .replace import replace_all
         return replace_all(it, self, old, new, *count)
